@@ -179,7 +179,15 @@ func c12GenUse(r *rng) c12Use {
 		nested := r.chance(1, 3)
 		return c12Use{fmt.Sprintf("on:%d", h), func(ctx context.Context, w io.Writer, handles map[int]*templ.OnceHandle) error {
 			if handles[h] == nil {
-				handles[h] = templ.NewOnceHandle()
+				// distinct handles however they were made: by the constructor, or as zero values (var h templ.OnceHandle)
+				switch h {
+				case 1:
+					handles[h] = templ.NewOnceHandle()
+				case 2:
+					handles[h] = new(templ.OnceHandle)
+				default:
+					handles[h] = &templ.OnceHandle{}
+				}
 			}
 			content := templ.Component(templ.Raw(fmt.Sprintf("<once %d>", h)))
 			if nested {
